@@ -102,6 +102,8 @@ type FnContract struct {
 	ConsType  string
 	CallSites []*CallSiteAssert
 	Captures  []*Clause
+	AbsModifies []string // ghosts havocked at call sites on behalf of the abstraction clauses
+	AbsEnsure []*Clause // assumed postconditions relating an abstract ghost view to the result (used by callers, not checked in the body; listed in the evidence)
 	EnvAssume []*Clause // environment assumptions on the state at the first acquire, used only for obligations of the clause's properties
 	Pkg       string
 	File      string
@@ -110,7 +112,7 @@ type FnContract struct {
 	Deltas    []*Clause
 	Dec       *Clause
 	OnAssign  []*CallSiteAssert // Callee = local variable name: asserted right after its first assignment
-	DeadReturns map[int]bool // return sites (in processing order) that the contracts make unreachable on purpose
+	DeadReturns map[int]bool // return sites (numbered in source order) that the contracts make unreachable on purpose
 	FreshWrites []string // struct types whose fields this function may only write on objects it owns (fresh / mine)
 }
 
@@ -229,7 +231,7 @@ func parseLabel(s string) (label string, tags []string, rest string) {
 var directiveKW = map[string]bool{"assumption": true, "autotagfn": true, "globalinv": true, "uf": true, "tracked": true, "cond": true, "callers": true, "racestrict": true, "sweepwrappers": true, "rawaxiom": true, "autotag": true, "option": true, "import": true, "ghost": true, "pred": true, "inv": true, "lockinv": true, "protect": true,
 	"typeinv": true, "lockorder": true, "guards": true, "func": true, "dyn": true, "lemma": true, "mono": true, "spec": true}
 var clauseKW = map[string]bool{"requires": true, "ensures": true, "loop": true, "locks": true, "modifies": true, "inline": true,
-	"trusted": true, "entry": true, "optional": true, "blocking": true, "pure": true, "callsite": true, "captures": true, "envassume": true,
+	"trusted": true, "entry": true, "optional": true, "blocking": true, "pure": true, "callsite": true, "captures": true, "envassume": true, "absensures": true, "absmodifies": true,
 	"interruptible_by": true, "constructor": true, "delta": true, "decreases": true, "fresh_writes": true, "onassign": true, "deadreturn": true}
 
 // loadSpecFile parses one contract file. goFile: lines are taken from //@ comments.
@@ -548,6 +550,15 @@ func (db *SpecDB) loadSpecFile(path string, pkgPath string, goFile bool) {
 				cur.Ensures = append(cur.Ensures, mkClause(it.text, it.n))
 			case "captures":
 				cur.Captures = append(cur.Captures, mkClause(it.text, it.n))
+			case "absmodifies":
+				for _, g := range strings.Split(it.text, ",") {
+					if g = strings.TrimSpace(g); g != "" {
+						cur.AbsModifies = append(cur.AbsModifies, g)
+					}
+				}
+			case "absensures":
+				cur.AbsEnsure = append(cur.AbsEnsure, mkClause(it.text, it.n))
+				db.Assumed = append(db.Assumed, it.text+"  (abstraction clause of "+cur.Key+": assumed at its call sites, not checked against its body)")
 			case "envassume":
 				ec := mkClause(it.text, it.n)
 				cur.EnvAssume = append(cur.EnvAssume, ec)
